@@ -970,7 +970,8 @@ def gen_cases(tier):
         out.append(('bpki.unwrap', dict(kind='share', epki=S.epki_wrap(sh, PWD, SALT, 10000, 'share'), pwd=PWD)))
     out.append(('bpki.wrap', dict(kind='privkey', secret=privkey(32), pwd=PWD, salt=SALT, iter=9999)))
     out.append(('bpki.wrap', dict(kind='privkey', secret=data(33), pwd=PWD, salt=SALT, iter=10000)))
-    # (bpkiShareWrap with a bad share returns ERR_BAD_SECKEY where bpki.h documents ERR_BAD_SHAREKEY: error-class matter of C09, not in this corpus)
+    out.append(('bpki.wrap', dict(kind='share', secret=bytes([17]) + data(16), pwd=PWD, salt=SALT, iter=10000)))
+    out.append(('bpki.wrap', dict(kind='share', secret=data(18), pwd=PWD, salt=SALT, iter=10000)))
     # --- secure messaging: every Lc*/Le* form class
     for cl in (0, 1, 16, 230, 231, 232, 239, 240, 241, 255, 256, 257, 1000) + ((65000, 65500) if th else ()):
         for rl in (0, 1, 255, 256, 257, 65536):
